@@ -31,6 +31,7 @@ type c11Step struct {
 	CostK   int    `json:"cost_k,omitempty"` // -1: the cost the victim expects
 	Framed  bool   `json:"framed,omitempty"`
 	DelayUs int    `json:"delay_us,omitempty"`
+	Blocked bool   `json:"blocked,omitempty"` // pair: the first peer does not read, so the victim's writes to it block
 }
 
 type C11Plan struct {
@@ -44,7 +45,7 @@ type C11Plan struct {
 	Shrink   []string     `json:"_shrink"`
 }
 
-var c11IDs = []string{"", "v", "p1", "p2", "p3", "P1", "a"}
+var c11IDs = []string{"", "v", "p1", "p2", "p3", "P1", "a", "a0"}
 
 func genC11(seed uint64, tier string) any {
 	r := simnet.NewRng(seed, "c11")
@@ -71,7 +72,7 @@ func genC11(seed uint64, tier string) any {
 			}
 		}
 		if r.Bool(0.4) {
-			b.Override = map[string]int{simnet.Pick(r, c11IDs[2:]): r.Range(51, 90)}
+			b.Override = map[string]int{simnet.Pick(r, c11IDs[2:7]): r.Range(51, 90)}
 		}
 		p.Backends = append(p.Backends, b)
 	}
@@ -112,6 +113,7 @@ func genC11(seed uint64, tier string) any {
 			st.Kind = "pair"
 			st.Slot2 = r.Intn(ns)
 			st.DelayUs = r.Intn(3) * 500
+			st.Blocked = r.Bool(0.5)
 		}
 		p.Steps = append(p.Steps, st)
 	}
@@ -349,12 +351,24 @@ func runC11(t *testing.T, planAny any, res *simnet.Result) {
 					continue
 				}
 				okA, okB := admissible(st.Slot, st.ID), admissible(st.Slot2, st.ID)
+				if st.Blocked {
+					// the first peer has stopped reading: the victim's writer is stuck in Send and, a second later, the
+					// goroutine repeating the initial message is parked on the write channel, so the hand-off that ends
+					// the handshake of this session cannot complete while the second session shows up
+					a.sess.BlockPeerSend(true)
+					time.Sleep(1600 * time.Millisecond)
+					res.Add("probe_blocked_handshake", 1)
+				}
 				seq++
 				_ = a.sess.Send(routeMsg(&simnet.RoutingUpdate{NodeID: st.ID, UpdateID: nextID(), UpdateEpoch: 11 << 24, UpdateSequence: seq, Connections: map[string]float64{}, ForwardingNode: st.ID}))
 				time.Sleep(time.Duration(st.DelayUs) * time.Microsecond)
 				seq++
 				_ = b.sess.Send(routeMsg(&simnet.RoutingUpdate{NodeID: st.ID, UpdateID: nextID(), UpdateEpoch: 11 << 24, UpdateSequence: seq, Connections: map[string]float64{}, ForwardingNode: st.ID}))
 				time.Sleep(time.Second)
+				if st.Blocked {
+					a.sess.BlockPeerSend(false)
+					time.Sleep(time.Second)
+				}
 				simnet.Quiesce()
 				a.id, b.id = st.ID, st.ID
 				// exactly one may win when both are admissible; the model follows the victim's choice
